@@ -1879,6 +1879,10 @@ func (fx *FuncExec) finish() {
 	env.results = results
 	env.atReturn = true
 	for _, e := range fx.fc.Ensures {
+		if e.Assumed {
+			fx.assumptions[fmt.Sprintf("trusted clause of %s (assumed at call sites, not checked): %s", fx.relName(), e.Text)] = true
+			continue
+		}
 		fx.obligeClause("post", exit, env, e, "postcondition: "+e.Text, pos)
 	}
 	for _, e := range fx.fc.Asserts {
